@@ -122,6 +122,13 @@ def case(cid, rng):
                 pm = PCovR(mixing=a / 8.0, n_components=k, space="sample", svd_solver="full", tol=1e-12,
                            regressor=Ridge(alpha=alpha, fit_intercept=False, tol=1e-12)).fit(X, Y)
                 add_route("sample-space-PCovR-with-equivalent-ridge", pm.transform(X), pm.transform(Xv1), pm.predict(X))
+            if True:
+                # regressor="precomputed": the regressed targets K W and the dual coefficients of the model above handed over
+                Kmodel = mdl.centerer_.transform(Kraw.copy()) if center else Kraw
+                Wm = np.reshape(mdl.regressor_.dual_coef_, (n, -1))
+                pp = KernelPCovR(mixing=a / 8.0, n_components=k, regressor="precomputed", center=center, svd_solver="full", tol=1e-12,
+                                 kernel=kp["kernel"], gamma=full["gamma"], degree=full["degree"], coef0=full["coef0"]).fit(X, Kmodel @ Wm, W=Wm.copy())
+                add_route("precomputed-regressor", pp.transform(X), pp.transform(Xv1))
             if regk != "krr-fitted":
                 alpha_r = 1.0 if regk == "none" else alpha
                 pk = KernelPCovR(mixing=a / 8.0, n_components=k, kernel="precomputed", center=center, svd_solver="full", tol=1e-12,
